@@ -18,8 +18,8 @@ Conventions
 * values are immutable atoms or lists of atoms; Python `!=` is `Val.pyEq` (`True == 1`).
   Lists are held *by value*.  This is the behaviour of the code **with the fix patches**
   `fixes/D52-log-change-alias.patch` (the change rule keeps `copy.copy` of the last value instead of
-  an alias of the share's list object) and `fixes/D51-log-change-restart.patch` (`prepare` rebuilds
-  `.lasts` only before the first record).  Without them the change rule misses in-place mutations
+  an alias of the share's list object), `fixes/D51-log-change-restart.patch` (`prepare` rebuilds
+  `.lasts` only before the first record) and D53 (`reopen` treats an existing empty file as new).  Without them the change rule misses in-place mutations
   and changes made while the logger is stopped.
 * a Python exception is never a defaulted value: every transcribed method returns the state
   reached when the exception was raised together with `some err`.
@@ -194,10 +194,12 @@ def Log.write (l : Log) (ls : List Line) : Log × Option Err :=
     | none => ({ l with disk := some ls }, none)   -- unreachable: an open file exists
   else (l, some .attributeError)
 
-/-- `Log.reopen`: close, note whether the path exists, open for append (creating it) -/
+/-- `Log.reopen`: close, note whether the path exists *and is not empty* (fix D53: an existing but
+still empty file is treated as new and gets its header), open for append (creating it) -/
 def Log.reopen (l : Log) : Log :=
   match l.disk with
-  | some c => { l with first := false, isOpen := true, disk := some c }
+  | some (x :: c) => { l with first := false, isOpen := true, disk := some (x :: c) }
+  | some [] => { l with isOpen := true, disk := some [] }
   | none => { l with isOpen := true, disk := some [] }
 
 def Log.close (l : Log) : Log := { l with isOpen := false }
